@@ -131,9 +131,6 @@ class PyMachine:
             d["card_data"] = "n/a"
         try:
             d["lcd_busy"] = [bool(c.state.busy) for c in emu.lcd.chips]
-            d["lcd_counters"] = [[c.instruction_count, c.data_write_count, c.data_read_count, c.on_off_count]
-                                 for c in emu.lcd.chips] + [emu.lcd.cs_both_count, emu.lcd.cs_left_count,
-                                                            emu.lcd.cs_right_count]
         except Exception:
             d["lcd_busy"] = "n/a"
         try:
